@@ -11,8 +11,9 @@ Section SM.
   Variable rf rfd : Grid -> Field -> Rec.       (* recovery_factor(), recovery_factor(density=True) *)
   Variable interp : Grid -> Rec -> Curve.       (* recovery_factor_interpolator() *)
 
-  Inductive op := Sim (g : Grid) | SimS (g : Grid) (s : Sched) | RF | RFd | Interp.
-  Inductive out := ONone | ORec (r : Rec) | OCurve (c : Curve) | OErr.
+  (* SimBad g: a simulate call that raises before completing (frac-face schedule of the wrong length, pressure outside the table) *)
+  Inductive op := Sim (g : Grid) | SimS (g : Grid) (s : Sched) | RF | RFd | Interp | SimBad (g : Grid).
+  Inductive out := ONone | ORec (r : Rec) | OCurve (c : Curve) | OErr | ORej.
 
   (* the mutable attributes: time, pseudopressure, cached recovery *)
   Record state := { st_time : option Grid; st_field : option Field; st_rec : option Rec }.
@@ -44,6 +45,7 @@ Section SM.
             end
         | _, _ => (s, OErr)
         end
+    | SimBad _ => (s, ORej)          (* a call that raised leaves the object as it was *)
     end.
 
   Fixpoint run (s : state) (ops : list op) : state * list out :=
@@ -105,6 +107,31 @@ Section SM.
     - destruct t, f; simpl; (split; [reflexivity|discriminate]).
     - destruct t, f; simpl; try (split; [reflexivity|discriminate]).
       destruct r; simpl; (split; [reflexivity|discriminate]).
+    - split; [reflexivity|discriminate].
+  Qed.
+
+  (* rejected calls are invisible: dropping them from a history changes neither the final state nor any other output *)
+  Definition is_bad (o : op) := match o with SimBad _ => true | _ => false end.
+  Definition not_rej (y : out) := match y with ORej => false | _ => true end.
+  Lemma step_never_rejects s o : is_bad o = false -> not_rej (snd (step s o)) = true.
+  Proof.
+    destruct o; cbn [is_bad]; intros H; try discriminate; cbn [step]; try reflexivity.
+    all: destruct (st_time s); destruct (st_field s); try reflexivity; destruct (st_rec s); reflexivity.
+  Qed.
+  Theorem rejected_calls_are_invisible ops : forall s,
+    fst (run s ops) = fst (run s (filter (fun o => negb (is_bad o)) ops)) /\
+    filter not_rej (snd (run s ops)) = snd (run s (filter (fun o => negb (is_bad o)) ops)).
+  Proof.
+    induction ops as [|o ops IH]; intros s; [split; reflexivity|].
+    destruct (is_bad o) eqn:B.
+    - destruct o; try discriminate. cbn [filter is_bad negb run step].
+      specialize (IH s). destruct (run s ops) as [s2 ys]. cbn [fst snd filter not_rej] in *. exact IH.
+    - cbn [filter]. rewrite B. cbn [negb run].
+      pose proof (step_never_rejects s o B) as NR.
+      destruct (step s o) as [s1 y]. specialize (IH s1).
+      destruct (run s1 ops) as [s2 ys]. destruct (run s1 (filter (fun o0 => negb (is_bad o0)) ops)) as [s3 zs].
+      cbn [fst snd] in *. destruct IH as [E1 E2]. split; [exact E1|].
+      cbn [filter]. rewrite NR. now rewrite E2.
   Qed.
 End SM.
 
@@ -117,14 +144,16 @@ Definition sym_rf (t : nat) (f : list nat) : list nat := 0 :: t :: f.
 Definition sym_rfd (t : nat) (f : list nat) : list nat := 1 :: t :: f.
 Definition sym_interp (t : nat) (r : list nat) : list nat := t :: r.
 Definition sym_out (o : out (list nat) (list nat)) : list nat :=
-  match o with ONone _ _ => [0] | ORec _ _ r => 1 :: r | OCurve _ _ c => 2 :: c | OErr _ _ => [9] end.
-(* operation codes: [0; g] simulate(grid g); [1; g; s] simulate(grid g, schedule s); [2] rf; [3] rfd; [4] interp *)
+  match o with ONone _ _ => [0] | ORec _ _ r => 1 :: r | OCurve _ _ c => 2 :: c | OErr _ _ => [9] | ORej _ _ => [8] end.
+(* operation codes: [0; g] simulate(grid g); [1; g; s] simulate(grid g, schedule s); [2] rf; [3] rfd; [4] interp;
+   [5; g] simulate(grid g, a schedule of the wrong length): raises *)
 Definition sym_op (c : list nat) : op nat nat :=
   match c with
   | [0; g] => Sim _ _ g
   | [1; g; s] => SimS _ _ g s
   | [2] => RF _ _
   | [3] => RFd _ _
+  | [5; g] => SimBad _ _ g
   | _ => Interp _ _
   end.
 Definition sym_state (s : state nat (list nat) (list nat)) : list (list nat) :=
